@@ -28,7 +28,9 @@ RULE = (
     "str, paths, trie, len, pickle round trip, to_json, from_json(to_json), deepcopy, pickle of a child}; state key = history's set of "
     "filled caches per node + number of serializations; (b) SMT atoms {=, str.++, str.len, str.in_re/str.to_re, str.prefixof, str.replace, "
     "conjunction} x literal pairs over {plain, empty, quote, backslash, trailing backslash, newline, tab, Latin-1, BMP, \\\\u-lookalike "
-    "text, NUL}, with and without substituted trees; (c) every tree of the assgn/null universes through the CLI's JSON reader; a schema is "
+    "text, NUL, runs of blanks, blank lines}, also inside a term long enough for Z3's printer to wrap lines, with and without substituted trees; (c) every "
+    "tree of the assgn/null/tags universes through the CLI's JSON writer and reader; (d) CLI pipeline: `isla parse` output (stdout as printed / -o file, plain / pretty) "
+    "written to a file and read back by `isla parse`, 12 trees of each of three grammars; a schema is "
     "(part, operation); non-trivial iff the operation was observed from at least two different cache states / literal classes"
 )
 ASSUMPTIONS = [
@@ -200,7 +202,7 @@ class bfs_state:
 
 # ------------------------------------------------------------------ (b) SMT formulas
 
-LITS = ["a", "", 'a"b', '"', "\\", "a\\", "C:\\dir\\", "a\nb", "\t", "ä", "ÿ\x80", "€", "\\u{41}", "a\x00b", "it's", "a b"]
+LITS = ["a", "", 'a"b', '"', "\\", "a\\", "C:\\dir\\", "a\nb", "\t", "ä", "ÿ\x80", "€", "\\u{41}", "a\x00b", "it's", "a b", "a  b", "  ", " a ", "a\n\n b", "\t\t"]
 
 
 def smt_skeletons():
@@ -215,6 +217,8 @@ def smt_skeletons():
         ("prefixof", lambda a, b: ["str.prefixof", S(a), ["str.++", X, S(b)]]),
         ("replace", lambda a, b: ["=", ["str.replace", X, S(a), S(b)], X]),
         ("and", lambda a, b: ["and", ["=", X, S(a)], ["not", ["=", X, S(b)]]]),
+        # long enough for Z3's pretty printer to break the term over several indented lines
+        ("long", lambda a, b: ["and"] + [["not", ["=", ["str.++", X, S(a * 3 + str(k) + b)], S(b + "0123456789" * 2 + a)]] for k in range(6)]),
     ]:
         out.append((name, mk))
     return out
@@ -295,6 +299,62 @@ def cli_case(r, gname, g, t):
     r.verdict(("cli", gname), RT.is_open(ref))
 
 
+def cli_pipeline_case(r, gname, g, t):
+    """the tree printed by `isla parse` (stdout exactly as printed, or -o file; plain or pretty) is read back by `isla parse` as the same tree"""
+    import io
+    import json
+    import os
+    import shutil
+    import tempfile
+    from isla import cli
+    from isla.derivation_tree import DerivationTree
+
+    word = tstr(t)
+    d = tempfile.mkdtemp(prefix="c17_")
+    try:
+        G = os.path.join(d, "g.py")
+        with open(G, "w") as f:
+            f.write("grammar = " + repr(g) + "\n")
+
+        def run(*argv):
+            out, err = io.StringIO(), io.StringIO()
+            try:
+                cli.main(*argv, stdout=out, stderr=err)
+                code = 0
+            except SystemExit as e:
+                code = e.code if isinstance(e.code, int) else (0 if e.code is None else 1)
+            return code, out.getvalue(), err.getvalue()
+
+        for flags, sink in itertools.product(((), ("-p",)), ("stdout", "-o")):
+            case = dict(kind="cli-pipeline", g=gname, tree=tjson(RT.with_ids(t)), flags=list(flags), sink=sink)
+            r.evals += 1
+            r.transitions += 2
+            J1 = os.path.join(d, "t1.json")
+            try:
+                if sink == "stdout":
+                    code, out, err = run("parse", *flags, "-c", "true", "-i", word, G)
+                    with open(J1, "w", newline="") as f:
+                        f.write(out)  # what `isla parse ... > t1.json` leaves
+                else:
+                    code, out, err = run("parse", *flags, "-c", "true", "-o", J1, "-i", word, G)
+                if code != 0:
+                    r.outcomes["cli-pipeline:first-parse-exit-%s" % code] += 1
+                    continue
+                first = json.loads(open(J1).read())
+                code2, out2, err2 = run("parse", "-c", "true", G, J1)
+                if code2 != 0:
+                    r.viol(f"cli-pipeline/tree-not-read-back/{sink}", f"`isla parse {' '.join(flags)}` printed a tree for {word!r} ({sink}); `isla parse` on that file exits {code2}: {(out2 + err2).strip()[:100]}", case, 0, code2)
+                    continue
+                second = json.loads(out2)
+                if second != first or str(DerivationTree.from_parse_tree(second)) != word:
+                    r.viol(f"cli-pipeline/tree-differs/{sink}", f"the tree printed by `isla parse {' '.join(flags)}` for {word!r} is read back as a different tree", case, first, second)
+            except BaseException as ex:  # noqa
+                r.viol(f"cli-pipeline/raises/{common.exc_key(ex)}", f"CLI tree round trip for {word!r} raised {type(ex).__name__}: {str(ex)[:100]}", case)
+        r.verdict(("cli-pipeline", gname), word)
+    finally:
+        shutil.rmtree(d, ignore_errors=True)
+
+
 def chunks(tier, seed):
     out = []
     depth = 3 if tier == "quick" else 4
@@ -303,6 +363,8 @@ def chunks(tier, seed):
             out.append(dict(kind="bfs", seed=si, first=op, depth=depth))
     out.append(dict(kind="smt", tier=tier))
     out.append(dict(kind="cli", tier=tier))
+    for gname in ("assgn", "tags", "list"):
+        out.append(dict(kind="cli-pipeline", g=gname, tier=tier))
     return out
 
 
@@ -342,6 +404,15 @@ def run_chunk(chunk):
                 r.state("smt", name, a, b)
         r.sample({"part": "smt pickling", "skeletons": [n for n, _ in smt_skeletons()], "literals": LITS})
         return r
+    if chunk["kind"] == "cli-pipeline":
+        gname = chunk["g"]
+        ts = common.trees_of(gname, "quick")
+        ts = ts[:: max(1, len(ts) // (12 if chunk["tier"] == "quick" else 60))]
+        for t in ts:
+            r.state("cli-pipeline", gname, t)
+            cli_pipeline_case(r, gname, GR.cat(gname), t)
+        r.sample({"part": "cli pipeline parse -> file -> parse", "grammar": gname, "trees": len(ts)})
+        return r
     for gname in ("assgn", "null", "tags"):
         g = GR.cat(gname)
         cg = canon(g)
@@ -371,5 +442,9 @@ def replay(case):
         mk = dict(smt_skeletons())[case["skel"]]
         smt_case(r, case["skel"], mk, case["a"], case["b"], case["subst"])
         return r.viols
+    if case["kind"] == "cli-pipeline":
+        r = Result(keep_all=True)
+        cli_pipeline_case(r, case["g"], GR.cat(case["g"]), RT.strip_ids(from_tjson(case["tree"])))
+        return [v for v in r.viols if v["case"]["flags"] == case["flags"] and v["case"]["sink"] == case["sink"]]
     cli_case(r, case["g"], GR.cat(case["g"]), RT.strip_ids(from_tjson(case["tree"])))
     return r.viols
